@@ -1,27 +1,156 @@
 import QmiModel.Model.RecvQueue
+import QmiModel.Gen.RecvProg
 import Drv.Common
 open QmiModel.RecvQueue
 
-def stepLine (r : RQ) (line : String) : RQ × String :=
+/-! Line-protocol driver for C09.
+
+Sequential model (`RecvQueue`): `init cap old|new`, `recv tag`, `get`, `discard`, `len`, `ready`, `q`.
+
+Concurrent model (`RecvConc`, running the statement lists GENERATED from the source, `Gen.RecvProg.progs`), driven at
+lock granularity by the events of a real run:
+`cinit cap pol`, `ccall i recv tag | get plain|task none|zero|pos | discard | len | ready`, `cacq i` (thread `i` runs up to
+and including its `acquire`), `crun i` (thread `i` runs while it holds the lock: until the call ends or it parks in
+`wait`), `crunr i n` (… until it has read the task's stop flag `n` more times), `cunpark i`, `cstop i`, `cexpire i`,
+`cwake i`, `cq`. -/
+
+namespace C09Conc
+open QmiModel.RecvConc
+
+def progs : Progs := QmiModel.Gen.RecvProg.progs
+
+def resStr : Option Res → String
+  | none => "none"
+  | some .unit => "unit"
+  | some (.sig s) => s!"sig {s.seq} {s.tag}"
+  | some .timeout => "timeout"
+  | some .taskStop => "taskstop"
+  | some .indexErr => "indexerr"
+  | some (.nat n) => toString n
+  | some (.bool b) => toString b
+
+/-- thread `i` runs up to and including its `acquire` -/
+def acq (s : St) (i : Nat) : Nat → St × Bool
+  | 0 => (s, false)
+  | f + 1 =>
+    if s.lock == some i then (s, true) else
+    let s' := cstep progs s (.step i)
+    if s'.lock == some i then (s', true)
+    else if (s'.thr i).pc == (s.thr i).pc then (s', false)     -- blocked (or not in a call)
+    else acq s' i f
+
+/-- thread `i` runs while it holds the lock -/
+def runHeld (s : St) (i : Nat) : Nat → St
+  | 0 => s
+  | f + 1 => if s.lock == some i then runHeld (cstep progs s (.step i)) i f else s
+
+/-- the next statement of thread `i` reads the task's stop flag (which no lock protects) -/
+def readsFlag (s : St) (i : Nat) : Bool :=
+  let t := s.thr i
+  match t.call, t.wpc with
+  | .get task _, some w =>
+    if t.parked then false else
+    match (if task then progs.taskWait else progs.plainWait)[w]? with
+    | some (.waitFor true) => s.g.r.q.isEmpty
+    | some .raiseIfStop => true
+    | _ => false
+  | _, _ => false
+
+/-- thread `i` (holding the lock) runs until it has read the stop flag `n` more times -/
+def runReads (s : St) (i : Nat) (n : Nat) : Nat → St × Bool
+  | 0 => (s, n == 0)
+  | f + 1 =>
+    if n == 0 then (s, true)
+    else if s.lock != some i then (s, false)
+    else runReads (cstep progs s (.step i)) i (if readsFlag s i then n - 1 else n) f
+
+def qStr (s : St) : String := s.g.r.q.foldl (fun acc x => acc ++ s!" {x.seq}:{x.tag}") "q"
+
+def parseCall : List String → Option Call
+  | ["recv", t] => t.toNat?.map Call.recv
+  | ["get", "plain", "none"] => some (.get false .none)
+  | ["get", "plain", "zero"] => some (.get false .zero)
+  | ["get", "plain", "pos"] => some (.get false .pos)
+  | ["get", "task", "none"] => some (.get true .none)
+  | ["get", "task", "zero"] => some (.get true .zero)
+  | ["get", "task", "pos"] => some (.get true .pos)
+  | ["discard"] => some .discard
+  | ["len"] => some (.query false)
+  | ["ready"] => some (.query true)
+  | _ => none
+
+def step (s : St) (ws : List String) : Option (St × String) :=
+  match ws with
+  | ["cinit", c, p] =>
+    match c.toNat?, p with
+    | some cap, "old" => some (St.init cap .old, "ok")
+    | some cap, "new" => some (St.init cap .new, "ok")
+    | _, _ => none
+  | "ccall" :: i :: rest =>
+    match i.toNat?, parseCall rest with
+    | some i, some c =>
+      match (s.thr i).call with
+      | .idle => some (cstep progs s (.call i c), "ok")
+      | _ => some (s, "busy")
+    | _, _ => none
+  | ["cacq", i] =>
+    i.toNat?.map fun i =>
+      let (s', ok) := acq s i 8
+      (s', if ok then "ok" else "blocked")
+  | ["crun", i] =>
+    i.toNat?.map fun i =>
+      if s.lock != some i then (s, "not-holder") else
+      let s' := runHeld s i 40
+      if s'.lock == some i then (s', "stuck")
+      else if (s'.thr i).parked then (s', "parked")
+      else (s', "done " ++ resStr (s'.thr i).res)
+  | ["crunr", i, n] =>
+    match i.toNat?, n.toNat? with
+    | some i, some n =>
+      let (s', ok) := runReads s i n 40
+      some (s', if ok then "ok" else "fewer-flag-reads")
+    | _, _ => none
+  | ["cunpark", i] =>
+    i.toNat?.map fun i =>
+      if !(s.thr i).parked then (s, "not-parked") else
+      let s' := cstep progs s (.step i)
+      (s', if s'.lock == some i && !(s'.thr i).parked then "ok" else "blocked")
+  | ["cstop", i] => i.toNat?.map fun i => (cstep progs s (.stop i), "ok")
+  | ["cexpire", i] => i.toNat?.map fun i => (cstep progs s (.expire i), "ok")
+  | ["cwake", i] => i.toNat?.map fun i => (cstep progs s (.wake i), "ok")
+  | ["cq"] => some (s, qStr s)
+  | _ => none
+
+end C09Conc
+
+structure DS where
+  r : RQ
+  c : QmiModel.RecvConc.St
+
+def stepLine (d : DS) (line : String) : DS × String :=
+  let r := d.r
   match line.splitOn " " with
   | ["init", c, p] =>
     match c.toNat?, p with
-    | some cap, "old" => (init cap .old, "ok")
-    | some cap, "new" => (init cap .new, "ok")
-    | _, _ => (r, "bad-op")
+    | some cap, "old" => ({ d with r := init cap .old }, "ok")
+    | some cap, "new" => ({ d with r := init cap .new }, "ok")
+    | _, _ => (d, "bad-op")
   | ["recv", t] =>
     match t.toNat? with
-    | some tag => ((step r (.recv tag)).1, "ok")
-    | none => (r, "bad-op")
+    | some tag => ({ d with r := (step r (.recv tag)).1 }, "ok")
+    | none => (d, "bad-op")
   | ["get"] =>
     match step r .get with
-    | (r', .sig s) => (r', s!"sig {s.seq} {s.tag}")
-    | (r', .timeout) => (r', "timeout")
-    | (r', _) => (r', "bad-out")
-  | ["discard"] => ((step r .discard).1, "ok")
-  | ["len"] => match (step r .len).2 with | .nat n => (r, toString n) | _ => (r, "bad-out")
-  | ["q"] => (r, r.q.foldl (fun acc s => acc ++ s!" {s.seq}:{s.tag}") "q")
-  | ["ready"] => match (step r .ready).2 with | .bool b => (r, toString b) | _ => (r, "bad-out")
-  | _ => (r, "bad-op")
+    | (r', .sig s) => ({ d with r := r' }, s!"sig {s.seq} {s.tag}")
+    | (r', .timeout) => ({ d with r := r' }, "timeout")
+    | (r', _) => ({ d with r := r' }, "bad-out")
+  | ["discard"] => ({ d with r := (step r .discard).1 }, "ok")
+  | ["len"] => match (step r .len).2 with | .nat n => (d, toString n) | _ => (d, "bad-out")
+  | ["q"] => (d, r.q.foldl (fun acc s => acc ++ s!" {s.seq}:{s.tag}") "q")
+  | ["ready"] => match (step r .ready).2 with | .bool b => (d, toString b) | _ => (d, "bad-out")
+  | ws =>
+    match C09Conc.step d.c ws with
+    | some (c', out) => ({ d with c := c' }, out)
+    | none => (d, "bad-op")
 
-def main : IO Unit := Drv.main' stepLine (init 1 .old)
+def main : IO Unit := Drv.main' stepLine { r := init 1 .old, c := QmiModel.RecvConc.St.init 1 .old }
